@@ -66,7 +66,17 @@ def _get_missing_parts(fmt):
         for field in ("day", "month", "year")
         if not any(directive in fmt for directive in directive_mapping[field])
     ]
+    if _has_week_and_weekday(fmt):
+        # a week number and a weekday state the day and the month
+        missing = [field for field in missing if field == "year"]
     return missing
+
+
+def _has_week_and_weekday(fmt):
+    """Whether a strptime format gives the date as week of the year + weekday."""
+    return any(d in fmt for d in ("%U", "%W")) and any(
+        d in fmt for d in ("%a", "%A", "%w")
+    )
 
 
 def get_timezone_from_tz_string(tz_string):
